@@ -666,3 +666,42 @@ Proof.
     rewrite <- (mstep_no_wrap E S st0 o Hi Hg).
     apply IH; [apply mstep_preserves; assumption|assumption].
 Qed.
+
+(* the run of the generated code and its unbounded-integer reading coincide *)
+Corollary history_no_underflow E S ops st :
+  0 <= E -> 0 <= S -> E + S < T63 ->
+  grun (minit E S) ops = Some st ->
+  mrun (minit E S) ops = mrun_spec (minit E S) ops.
+Proof.
+  intros HE HS HB Hr.
+  rewrite (no_underflow E S ops st HE HS HB Hr).
+  exact (proj1 (history_conserves E S ops st HE HS HB Hr)).
+Qed.
+
+(* every operation applied within its guard from a state satisfying the invariant
+   is one of: per-operation equalities with the unbounded reading *)
+Theorem no_underflow_ops :
+  (forall E0 R n g ce cs, frame_ok E0 R n g -> u64_range ce -> u64_range cs ->
+     GasBudget_charge g (mkGasCosts ce cs) = charge_spec g ce cs) /\
+  (forall E0 R n g r, frame_ok E0 R n g -> u64_range r ->
+     GasBudget_ChargeExecutionOnly g r = charge_exec_only_spec g r) /\
+  (forall E0 R n g s, frame_ok E0 R n g -> 0 <= s <= n + US g ->
+     GasBudget_RefundState g s = refund_spec g s) /\
+  (forall E0 R n g, frame_ok E0 R n g -> GasBudget_DrainExecution g = drain_spec g) /\
+  (forall E0 R n g e, frame_ok E0 R n g -> 0 <= e <= Ex g ->
+     GasBudget_Forward g e = forward_spec g e) /\
+  (forall E0 R n g, frame_ok E0 R n g -> GasBudget_ExitRevert g = exit_revert_spec g) /\
+  (forall E0 R n g, frame_ok E0 R n g -> GasBudget_ExitHalt g = exit_halt_spec g) /\
+  (forall E0 R n p f Rc c, susp_ok E0 R n p f Rc -> frame_ok f Rc (n + US p) c ->
+     GasBudget_Absorb p c = absorb_spec p c).
+Proof.
+  repeat split.
+  - exact charge_no_wrap.
+  - exact charge_exec_only_no_wrap.
+  - exact refund_no_wrap.
+  - exact drain_no_wrap.
+  - exact forward_no_wrap.
+  - exact exit_revert_no_wrap.
+  - exact exit_halt_no_wrap.
+  - exact absorb_no_wrap.
+Qed.
